@@ -18,6 +18,7 @@ type Clause struct {
 	E     Expr
 	File  string
 	Line  int
+	Local bool     // "exit" clause: may mention the function's locals; checked at returns, not assumed by callers
 	Props []string // property ids this clause serves (from "[C01,C02]" tag) — empty: all of the function's
 }
 
@@ -45,6 +46,7 @@ type FuncContract struct {
 	Returns      []string
 	Requires     []*Clause
 	Ensures      []*Clause
+	Unclaimed    map[string]string
 	Panics       []*Clause // "panics when cond": reaching a panic is allowed only under cond ... informational
 	NoPanic      []*Clause
 	Modifies     []string
@@ -95,7 +97,7 @@ type Contracts struct {
 }
 
 var clauseKeywords = map[string]bool{
-	"func": true, "lemma": true, "spec": true, "returns": true, "requires": true, "ensures": true,
+	"func": true, "lemma": true, "spec": true, "returns": true, "requires": true, "ensures": true, "exit": true, "unclaimed": true,
 	"invariant": true, "decreases": true, "modifies": true, "pure": true, "loop": true, "callback": true,
 	"panics": true, "forkjoin": true, "trusted": true, "nopanic": true, "axiom": true, "props": true,
 	"package": true, "ghost": true, "using": true, "opaque": true, "footprint": true,
@@ -285,6 +287,17 @@ func (cs *Contracts) loadFile(path, pkg string) error {
 				return err
 			}
 			curS.Axioms = append(curS.Axioms, c)
+		case "unclaimed":
+			// "unclaimed <obligation kind>: reason" — obligations of that kind in this unit are generated and
+			// solved but not claimed for the unit's properties (the reason is reported in the evidence)
+			if curF == nil {
+				return fail("unclaimed outside func")
+			}
+			kind, reason, _ := strings.Cut(rc.text, ":")
+			if curF.Unclaimed == nil {
+				curF.Unclaimed = map[string]string{}
+			}
+			curF.Unclaimed[strings.TrimSpace(kind)] = strings.TrimSpace(reason)
 		case "props":
 			var ps []string
 			for _, p := range strings.FieldsFunc(rc.text, func(r rune) bool { return r == ',' || r == ' ' }) {
@@ -385,7 +398,7 @@ func (cs *Contracts) loadFile(path, pkg string) error {
 			}
 			curLoop = &LoopContract{Ordinal: n}
 			curF.Loops[n] = curLoop
-		case "requires", "ensures", "invariant", "decreases", "panics", "nopanic":
+		case "requires", "ensures", "exit", "invariant", "decreases", "panics", "nopanic":
 			c, err := mkClause(rc)
 			if err != nil {
 				return err
@@ -413,6 +426,10 @@ func (cs *Contracts) loadFile(path, pkg string) error {
 				case "requires":
 					curF.Requires = append(curF.Requires, c)
 				case "ensures":
+					curF.Ensures = append(curF.Ensures, c)
+				case "exit":
+					// a postcondition over the function's own locals at every return: checked, never exported to callers
+					c.Local = true
 					curF.Ensures = append(curF.Ensures, c)
 				case "panics":
 					curF.Panics = append(curF.Panics, c)
